@@ -6,7 +6,7 @@
 From Coq Require Import List NArith Lia Permutation Arith.
 From Truc.Model Require Import Layout Builder Ir Gen Exec Ops.
 From Truc.Model Require VecConv.
-From Truc.Proofs Require Import ExecP Holds Chain VecConvP VecConvThms.
+From Truc.Proofs Require Import ExecP Holds Life Fill Chain ChainU VecConvP VecConvThms.
 Import ListNotations.
 
 Section VecRecords.
@@ -366,3 +366,304 @@ Proof.
     + exact HF''.
 Qed.
 End Pipeline.
+
+(* ---------------------------------------------------------------- any of the four conversion forms as converter *)
+Section VecRecordsForms.
+Variable ds : defs.
+Variable TI : nat -> tinfo.
+Variable rt : runtime.
+Variables (A cap : N).
+Hypothesis RT : rt_ok rt = true.
+Variables (P Q minus plus carried : list nat).
+Hypothesis LP : layout_ok ds TI A cap P.
+Hypothesis LQ : layout_ok ds TI A cap Q.
+Hypothesis PP : Permutation P (minus ++ carried).
+Hypothesis PQ : Permutation Q (plus ++ carried).
+Variables (v prev : nat).
+Variables (uninit and_out : bool).
+Hypothesis PLAIN : uninit = true -> forall i, In i plus -> un ds i = true -> dr ds TI i = false.
+Variable pv : nat -> nat -> nat.      (* supplied values of the k-th element *)
+Variable fv : nat -> nat -> nat.      (* values written into the fields left uninitialised, k-th element *)
+
+Definition kstage (k : nat) : ustage :=
+  mkUStage (mkStage Q minus plus carried and_out (pv k) [] v prev) uninit (fv k).
+
+(* the converter: the chosen conversion form, then (uninit forms) one write per field left out; its state counts the
+   elements and collects what was destroyed and what the returning forms handed back *)
+Definition rconvg (s : nat * list nat * list nat) (t : buf) (_ : option buf)
+  : (nat * list nat * list nat) * option buf * VecConv.outcome buf unit fault :=
+  let '(k, d, bk) := s in
+  match op_conv ds TI rt A cap v prev minus plus uninit and_out t (pv k) with
+  | Ok (out, d0) =>
+      match (match out with
+             | ORecord b' => Some (b', [])
+             | OAndOut b' back => Some (b', back_tokens ds TI minus back)
+             | _ => None
+             end) with
+      | Some (b', r0) =>
+          match life ds TI rt b' (fill_ops ds (kstage k)) with
+          | Ok (b1, df) => ((S k, d ++ d0 ++ df, bk ++ r0), None, VecConv.Converted b1)
+          | Fault e => ((S k, d, bk), None, VecConv.Panicked e)
+          end
+      | None => ((S k, d, bk), None, VecConv.Panicked (Static 0))
+      end
+  | Fault e => ((S k, d, bk), None, VecConv.Panicked e)
+  end.
+
+Definition vals_after (k : nat) (vals : nat -> nat) : nat -> nat :=
+  fun i => if mem i plus then (if (uninit && un ds i)%bool then fv k i else pv k i) else vals i.
+
+Fixpoint outs_ok_g (k : nat) (inputs : list ((nat -> nat) * buf)) (outs : list buf) : Prop :=
+  match inputs, outs with
+  | [], [] => True
+  | (vals, _) :: ri, o :: ro => holds ds TI cap A Q (vals_after k vals) o /\ outs_ok_g (S k) ri ro
+  | _, _ => False
+  end.
+
+Lemma spec_records_g : forall inputs outs k d bk log,
+  Forall (fun x => holds ds TI cap A P (fst x) (snd x)) inputs ->
+  exists outs' d' bk' calls,
+    VecConv.spec buf buf unit fault (nat * list nat * list nat) rconvg (map snd inputs) outs (k, d, bk) log =
+      (VecConv.Done (outs ++ outs') ((k + length inputs)%nat, d ++ d', bk ++ bk'), log ++ calls) /\
+    Forall (is_call buf buf) calls /\ call_inputs buf buf calls = map snd inputs /\
+    outs_ok_g k inputs outs' /\
+    Permutation (d' ++ bk') (flat_map (fun x => map (fst x) (filter (dr ds TI) minus)) inputs).
+Proof.
+  induction inputs as [|[vals b] ri IH]; intros outs k d bk log HF.
+  - exists [], [], [], []. simpl. rewrite !app_nil_r, Nat.add_0_r. repeat split; auto.
+  - inversion HF as [|? ? Hb HF']; subst. simpl in Hb.
+    destruct (ustage_conv ds TI rt A cap RT P (kstage k) LP LQ PP PQ PLAIN vals b Hb)
+      as (b' & b1 & vals1 & E1 & Ef & H1 & Hv).
+    cbn [kstage u_s u_uninit u_fill s_Q s_minus s_plus s_carried s_andout s_pvals s_v s_prev] in E1, H1, Hv.
+    assert (H1' : holds ds TI cap A Q (vals_after k vals) b1).
+    { apply (holds_ext ds TI A cap Q vals1 (vals_after k vals) b1); [|exact H1]. intros i Hi. exact (Hv i Hi). }
+    cbn [map snd VecConv.spec]. unfold rconvg at 1. cbv beta iota. rewrite E1.
+    set (d0 := if and_out then [] else droppable_of TI (rev (map (fun i => (nm ds i, (Some (vals i), ty ds i))) minus))).
+    set (r0 := if and_out then back_tokens ds TI minus (map (fun i => (nm ds i, Some (vals i))) minus) else []).
+    assert (F1 : Permutation (d0 ++ r0) (map vals (filter (dr ds TI) minus))).
+    { unfold d0, r0. destruct and_out; simpl.
+      - rewrite back_tokens_spec. apply Permutation_refl.
+      - rewrite app_nil_r. apply droppable_tokens. }
+    assert (Hout : match VecConv.last_opt buf outs with Some _ => VecConv.set_last buf outs None | None => outs end = outs)
+      by (destruct (VecConv.last_opt buf outs); reflexivity).
+    destruct (IH (outs ++ [b1]) (S k) (d ++ d0 ++ []) (bk ++ r0) (log ++ [VecConv.Call b (VecConv.last_opt buf outs)]) HF')
+      as (outs' & d' & bk' & calls & Es & Hc & Hi & Ho & Pd).
+    exists (b1 :: outs'), (d0 ++ d'), (r0 ++ bk'), (VecConv.Call b (VecConv.last_opt buf outs) :: calls).
+    split; [|split; [|split; [|split]]].
+    + unfold d0, r0 in *. destruct and_out; rewrite Ef, Hout, Es; cbn [length]; rewrite ?app_nil_r;
+        rewrite <- ?app_assoc; cbn [app]; replace (S k + length ri)%nat with (k + S (length ri))%nat by lia; reflexivity.
+    + constructor; [exact I|exact Hc].
+    + cbn [call_inputs flat_map app map snd]. f_equal. exact Hi.
+    + cbn [outs_ok_g]. split; [exact H1'|exact Ho].
+    + cbn [flat_map fst]. apply (proj2 (Permutation_count_occ Nat.eq_dec _ _)). intros x.
+      pose proof (proj1 (Permutation_count_occ Nat.eq_dec _ _) F1 x) as C1.
+      pose proof (proj1 (Permutation_count_occ Nat.eq_dec _ _) Pd x) as C2.
+      rewrite !count_occ_app in *. lia.
+Qed.
+
+Theorem vec_of_records_forms : forall fl (sz al : N) inputs,
+  VecConv.flags_ok fl = true ->
+  Forall (fun x => holds ds TI cap A P (fst x) (snd x)) inputs ->
+  exists outs destroyed back calls,
+    VecConv.run buf buf unit fault (nat * list nat * list nat) rconvg sz al sz al fl (map snd inputs) (0%nat, [], []) =
+      (VecConv.Done outs (length inputs, destroyed, back), calls) /\
+    Forall (is_call buf buf) calls /\ call_inputs buf buf calls = map snd inputs /\
+    outs_ok_g 0%nat inputs outs /\
+    Permutation (destroyed ++ back) (flat_map (fun x => map (fst x) (filter (dr ds TI) minus)) inputs).
+Proof.
+  intros fl sz al inputs OK HF.
+  rewrite (run_refines buf buf unit fault (nat * list nat * list nat) rconvg sz al sz al fl _ _ OK).
+  unfold VecConv.spec_run. rewrite !N.eqb_refl. cbn [negb orb].
+  destruct (spec_records_g inputs [] 0%nat [] [] [] HF) as (outs' & d' & bk' & calls & Es & Hc & Hi & Ho & Pd).
+  exists outs', d', bk', calls. rewrite Es. cbn [app Nat.add]. repeat split; auto.
+Qed.
+End VecRecordsForms.
+
+(* ---------------------------------------------------------------- a converter that merges into the previous output *)
+(* The feature of convert_vec_in_place that the other theorems do not use: the converter is given mutable access to the
+   most recently produced output.  Here some elements are kept (converted to Q), the others are folded into the previous
+   output - one field of it is overwritten through its mutable accessor - and dropped (their generated Drop).  For every
+   vector: no fault, every output still holds Q (with some valuation), and everything is accounted for: what the
+   converter destroyed plus what the outputs own at the end is what the outputs owned before plus what the inputs owned
+   plus what was supplied and written. *)
+Section VecMerge.
+Variable ds : defs.
+Variable TI : nat -> tinfo.
+Variable rt : runtime.
+Variables (A cap : N).
+Hypothesis RT : rt_ok rt = true.
+Variables (P Q minus plus carried : list nat).
+Hypothesis LP : layout_ok ds TI A cap P.
+Hypothesis LQ : layout_ok ds TI A cap Q.
+Hypothesis PP : Permutation P (minus ++ carried).
+Hypothesis PQ : Permutation Q (plus ++ carried).
+Variables (v prev : nat).
+Variable pv : nat -> nat -> nat.
+Variable keep : nat -> bool.          (* is the k-th element kept ? *)
+Variable wf : nat -> nat.             (* otherwise: the field of the previous output that is overwritten ... *)
+Variable wx : nat -> nat.             (* ... and the value written *)
+Hypothesis WF : forall k, In (wf k) Q.
+
+Definition rconvm (s : nat * list nat) (t : buf) (po : option buf)
+  : (nat * list nat) * option buf * VecConv.outcome buf unit fault :=
+  if keep (fst s) then
+    match op_conv ds TI rt A cap v prev minus plus false false t (pv (fst s)) with
+    | Ok (ORecord b', d) => ((S (fst s), snd s ++ d), None, VecConv.Converted b')
+    | Ok (_, d) => ((S (fst s), snd s ++ d), None, VecConv.Panicked (Static 0))
+    | Fault e => ((S (fst s), snd s), None, VecConv.Panicked e)
+    end
+  else
+    match po with
+    | None =>
+        match op_drop ds TI rt A cap prev P t with
+        | Ok (_, dd) => ((S (fst s), snd s ++ dd), None, VecConv.Abandoned)
+        | Fault e => ((S (fst s), snd s), None, VecConv.Panicked e)
+        end
+    | Some o =>
+        match op_set ds TI rt o (wf (fst s)) (wx (fst s)) with
+        | Ok (o', d1) =>
+            match op_drop ds TI rt A cap prev P t with
+            | Ok (_, dd) => ((S (fst s), snd s ++ d1 ++ dd), Some o', VecConv.Abandoned)
+            | Fault e => ((S (fst s), snd s), None, VecConv.Panicked e)
+            end
+        | Fault e => ((S (fst s), snd s), None, VecConv.Panicked e)
+        end
+    end.
+
+Definition holdsQ (o : buf) : Prop := exists vals, holds ds TI cap A Q vals o.
+(* what a record owns, as its generated Drop would destroy it *)
+Definition rec_tokens (o : buf) : list nat :=
+  match op_drop ds TI rt A cap prev Q o with Ok (_, t) => t | Fault _ => [] end.
+Definition outs_tokens (l : list buf) : list nat := flat_map rec_tokens l.
+
+(* what enters at element k: the supplied values of a kept element, the written value of a merged one *)
+Fixpoint entered_m (k : nat) (has_prev : bool) (inputs : list ((nat -> nat) * buf)) : list nat :=
+  match inputs with
+  | [] => []
+  | _ :: r =>
+      if keep k then map (pv k) (filter (dr ds TI) plus) ++ entered_m (S k) true r
+      else (if andb has_prev (dr ds TI (wf k)) then [wx k] else []) ++ entered_m (S k) has_prev r
+  end.
+
+Lemma rec_tokens_holds vals o : holds ds TI cap A Q vals o -> Permutation (rec_tokens o) (map vals (filter (dr ds TI) Q)).
+Proof. intros H. unfold rec_tokens. rewrite (drop_holds ds TI rt A cap Q LQ prev vals o H). apply droppable_tokens. Qed.
+
+Lemma last_opt_split (l : list buf) o : VecConv.last_opt buf l = Some o -> l = removelast l ++ [o].
+Proof.
+  unfold VecConv.last_opt. intros H. destruct (rev l) as [|x r] eqn:E; [discriminate|]. inversion H; subst.
+  assert (El : l = rev r ++ [o]) by (rewrite <- (rev_involutive l), E; reflexivity).
+  rewrite El at 2. rewrite El. now rewrite removelast_last.
+Qed.
+Lemma last_opt_none (l : list buf) : VecConv.last_opt buf l = None -> l = [].
+Proof. unfold VecConv.last_opt. destruct (rev l) eqn:E; [|discriminate]. intros _. rewrite <- (rev_involutive l), E. reflexivity. Qed.
+
+Ltac cnt x H := let H' := fresh "C" in pose proof (proj1 (Permutation_count_occ Nat.eq_dec _ _) H x) as H'; rewrite ?count_occ_app in H'.
+
+Lemma spec_merge : forall inputs outs k d log,
+  Forall (fun x => holds ds TI cap A P (fst x) (snd x)) inputs -> Forall holdsQ outs ->
+  exists outs' d' calls,
+    VecConv.spec buf buf unit fault (nat * list nat) rconvm (map snd inputs) outs (k, d) log =
+      (VecConv.Done outs' ((k + length inputs)%nat, d ++ d'), log ++ calls) /\
+    Forall (is_call buf buf) calls /\ Forall holdsQ outs' /\
+    Permutation (d' ++ outs_tokens outs')
+                (outs_tokens outs ++ owned_tokens ds TI P inputs ++
+                 entered_m k (match outs with [] => false | _ => true end) inputs).
+Proof.
+  induction inputs as [|[vals b] ri IH]; intros outs k d log HF HQ.
+  - exists outs, [], []. simpl. rewrite !app_nil_r, Nat.add_0_r. repeat split; auto.
+  - inversion HF as [|? ? Hb HF']; subst. simpl in Hb.
+    cbn [map snd VecConv.spec]. unfold rconvm at 1. cbn [fst snd]. cbn [entered_m].
+    destruct (keep k) eqn:Ek.
+    + (* kept: converted, appended *)
+      destruct (conv_holds_full ds TI rt A cap RT P Q minus plus carried LP LQ PP PQ v prev false vals (pv k) b Hb)
+        as (b' & E & H').
+      rewrite E.
+      assert (Hout : match VecConv.last_opt buf outs with Some _ => VecConv.set_last buf outs None | None => outs end = outs)
+        by (destruct (VecConv.last_opt buf outs); reflexivity).
+      rewrite Hout.
+      set (d0 := droppable_of TI (rev (map (fun i => (nm ds i, (Some (vals i), ty ds i))) minus))).
+      assert (HQ' : Forall holdsQ (outs ++ [b'])) by (apply Forall_app; split; [exact HQ|constructor; [eexists; exact H'|constructor]]).
+      destruct (IH (outs ++ [b']) (S k) (d ++ d0) (log ++ [VecConv.Call b (VecConv.last_opt buf outs)]) HF' HQ')
+        as (outs' & d' & calls & Es & Hc & Hq & Pd).
+      exists outs', (d0 ++ d'), (VecConv.Call b (VecConv.last_opt buf outs) :: calls). split; [|split; [|split]].
+      * rewrite Es. cbn [length]. rewrite <- !app_assoc. cbn [app].
+        replace (S k + length ri)%nat with (k + S (length ri))%nat by lia. reflexivity.
+      * constructor; [exact I|exact Hc].
+      * exact Hq.
+      * assert (Enz : match outs ++ [b'] with [] => false | _ => true end = true) by (destruct outs; reflexivity).
+        rewrite Enz in Pd.
+        pose proof (droppable_tokens ds TI vals minus) as F1. fold d0 in F1.
+        pose proof (rec_tokens_holds _ _ H') as F2.
+        pose proof (merge_tokens ds TI A cap Q plus carried LQ PQ vals (pv k)) as F2'.
+        assert (F3 : Permutation (map vals (filter (dr ds TI) P))
+                                 (map vals (filter (dr ds TI) minus) ++ map vals (filter (dr ds TI) carried)))
+          by (apply perm_map_filter_app; exact PP).
+        unfold outs_tokens, owned_tokens in *. rewrite flat_map_app in Pd. cbn [flat_map fst] in Pd |- *. rewrite app_nil_r in Pd.
+        apply (proj2 (Permutation_count_occ Nat.eq_dec _ _)). intros x.
+        cnt x Pd. cnt x F1. cnt x F2. cnt x F2'. cnt x F3. rewrite !count_occ_app. lia.
+    + (* merged into the previous output (if any) and dropped *)
+      pose proof (drop_holds ds TI rt A cap P LP prev vals b Hb) as Ed.
+      pose proof (droppable_tokens ds TI vals P) as Fd.
+      set (dd := droppable_of TI (rev (map (fun i => (nm ds i, (Some (vals i), ty ds i))) P))) in *.
+      destruct (VecConv.last_opt buf outs) as [o|] eqn:El.
+      * pose proof (last_opt_split outs o El) as Eo.
+        assert (Ho : holdsQ o).
+        { rewrite Forall_forall in HQ. apply HQ. rewrite Eo. apply in_or_app. right. now left. }
+        destruct Ho as (valso & Ho).
+        destruct (set_holds ds TI rt A cap RT Q LQ valso o (wf k) (wx k) Ho (WF k)) as (o' & Eset & Ho').
+        rewrite Eset, Ed. cbn [VecConv.set_last].
+        assert (HQ' : Forall holdsQ (removelast outs ++ [o'])).
+        { apply Forall_app. split; [|constructor; [eexists; exact Ho'|constructor]].
+          rewrite Eo in HQ. apply Forall_app in HQ. tauto. }
+        set (d1 := if dr ds TI (wf k) then [valso (wf k)] else []) in *.
+        destruct (IH (removelast outs ++ [o']) (S k) (d ++ d1 ++ dd) (log ++ [VecConv.Call b (Some o)]) HF' HQ')
+          as (outs' & d' & calls & Es & Hc & Hq & Pd).
+        exists outs', (d1 ++ dd ++ d'), (VecConv.Call b (Some o) :: calls). split; [|split; [|split]].
+        -- rewrite Es. cbn [length]. rewrite <- !app_assoc. cbn [app].
+           replace (S k + length ri)%nat with (k + S (length ri))%nat by lia. reflexivity.
+        -- constructor; [exact I|exact Hc].
+        -- exact Hq.
+        -- assert (Enz : match removelast outs ++ [o'] with [] => false | _ => true end = true) by (destruct (removelast outs); reflexivity).
+           rewrite Enz in Pd.
+           assert (Enz2 : match outs with [] => false | _ => true end = true) by (rewrite Eo; destruct (removelast outs); reflexivity).
+           rewrite Enz2. cbn [andb].
+           pose proof (rec_tokens_holds _ _ Ho) as T1. pose proof (rec_tokens_holds _ _ Ho') as T2.
+           assert (T3 : Permutation (d1 ++ map (upd valso (wf k) (wx k)) (filter (dr ds TI) Q))
+                                    ((if dr ds TI (wf k) then [wx k] else []) ++ map valso (filter (dr ds TI) Q))).
+           { unfold d1. destruct (dr ds TI (wf k)) eqn:Edr; cbn [app].
+             - apply upd_perm; [apply NoDup_filter_keep; apply (lo_nd _ _ _ _ _ LQ)|apply filter_In; auto].
+             - replace (map (upd valso (wf k) (wx k)) (filter (dr ds TI) Q)) with (map valso (filter (dr ds TI) Q)); auto.
+               apply map_ext_in. intros i Hi. apply filter_In in Hi. unfold upd.
+               destruct (Nat.eqb i (wf k)) eqn:E'; auto. apply Nat.eqb_eq in E'. subst. destruct Hi as [_ Hi]. congruence. }
+           unfold outs_tokens, owned_tokens in *. rewrite flat_map_app in Pd. cbn [flat_map fst] in Pd |- *. rewrite app_nil_r in Pd.
+           rewrite Eo at 1. rewrite flat_map_app. cbn [flat_map]. rewrite app_nil_r.
+           apply (proj2 (Permutation_count_occ Nat.eq_dec _ _)). intros x.
+           cnt x Pd. cnt x Fd. cnt x T1. cnt x T2. cnt x T3. rewrite !count_occ_app. lia.
+      * pose proof (last_opt_none outs El) as Eo. subst outs. rewrite Ed.
+        destruct (IH [] (S k) (d ++ dd) (log ++ [VecConv.Call b None]) HF' HQ) as (outs' & d' & calls & Es & Hc & Hq & Pd).
+        exists outs', (dd ++ d'), (VecConv.Call b None :: calls). split; [|split; [|split]].
+        -- rewrite Es. cbn [length]. rewrite <- !app_assoc. cbn [app].
+           replace (S k + length ri)%nat with (k + S (length ri))%nat by lia. reflexivity.
+        -- constructor; [exact I|exact Hc].
+        -- exact Hq.
+        -- cbn [andb app]. unfold outs_tokens, owned_tokens in *. cbn [flat_map fst app] in Pd |- *.
+           apply (proj2 (Permutation_count_occ Nat.eq_dec _ _)). intros x.
+           cnt x Pd. cnt x Fd. rewrite !count_occ_app. lia.
+Qed.
+
+Theorem vec_merge : forall fl (sz al : N) inputs,
+  VecConv.flags_ok fl = true ->
+  Forall (fun x => holds ds TI cap A P (fst x) (snd x)) inputs ->
+  exists outs destroyed calls,
+    VecConv.run buf buf unit fault (nat * list nat) rconvm sz al sz al fl (map snd inputs) (0%nat, []) =
+      (VecConv.Done outs (length inputs, destroyed), calls) /\
+    Forall (is_call buf buf) calls /\ Forall holdsQ outs /\
+    Permutation (destroyed ++ outs_tokens outs) (owned_tokens ds TI P inputs ++ entered_m 0%nat false inputs).
+Proof.
+  intros fl sz al inputs OK HF.
+  rewrite (run_refines buf buf unit fault (nat * list nat) rconvm sz al sz al fl _ _ OK).
+  unfold VecConv.spec_run. rewrite !N.eqb_refl. cbn [negb orb].
+  destruct (spec_merge inputs [] 0%nat [] [] HF (Forall_nil _)) as (outs' & d' & calls & Es & Hc & Hq & Pd).
+  exists outs', d', calls. rewrite Es. cbn [app Nat.add]. repeat split; auto.
+Qed.
+End VecMerge.
